@@ -32,11 +32,13 @@ func init() {
 				{Name: "truncation-witness", Spec: mk([]int64{33300, 17200}, false, true, false, 3), Depth: 5, ShardDepth: 1},
 				{Name: "ratio-1-2-3", Spec: mk([]int64{10000, 20000, 30000}, false, true, false, 3), Depth: 5, ShardDepth: 2},
 				{Name: "signer-binding", Custom: signerBinding, Shards: 1},
+				{Name: "rebond-life-cycle", Spec: &vote.Spec{Prop: "C02", Chain: "eth", Stakes: []int64{10000, 10000, 10000, 10000}, Variants: []string{"A"}, MaxNonce: 3, Rebond: true}, Depth: 8, ShardDepth: 2},
 			}
 			if tier == "thorough" {
 				jobs[0].Depth = 8
 				jobs[1].Depth = 7
 				jobs[2].Depth = 7
+				jobs[4].Depth = 10
 				jobs = append(jobs, registry.Job{Name: "ratio-33-33-34+1", Spec: mk([]int64{33000, 33000, 34000}, true, true, true, 3), Depth: 7, ShardDepth: 2})
 			}
 			return jobs
